@@ -147,6 +147,25 @@ Theorem c18_learned_address_confirmed : forall H p off c hl c' hl',
 Proof. intros H p off c hl c' hl' _. exact (learned_address_confirmed H p off c hl c' hl'). Qed.
 Print Assumptions c18_learned_address_confirmed.
 
+(* the same end to end (clause 17 of the dial monitor): a dial at any instant
+   [now] at which bucket c' is served by a manager that was not restarted, with
+   the certhashes its address carried while bucket c = c' or c' - 1 was served,
+   passes the certificate check (pinned, parseable, ECDSA, validity = certValidity,
+   valid now with the skew to spare) and the confirmation, i.e. completes; and
+   the monitor for such dials accepts the model's answer *)
+Theorem c18_learned_address_dial_completes : forall H off c hl c' hl' now,
+  wfoff off -> (forall a b, H a (a + pV cparams) = H b (b + pV cparams) -> a = b) ->
+  bounds cparams off c' now -> c <= c' <= c + 1 -> (c' = c + 1 -> hl' = true) ->
+  let x := served_xcert H cparams off c' now in
+  let addr := hashes_of H (m_addr (mgr_at cparams off c hl)) in
+  let srv := hashes_of H (m_ser (mgr_at cparams off c' hl')) in
+  dial cparams [x] addr true srv = 0 /\ monitor_genuine_dial [x] addr true srv (dial cparams [x] addr true srv) = [].
+Proof.
+  intros H off c hl c' hl' now Hoff Hinj Hb Hk Hhl. destruct c18_consts_wf as (Hwf & HV & HM).
+  apply learned_dial_completes; try assumption; rewrite HM; try exact HV; lia.
+Qed.
+Print Assumptions c18_learned_address_dial_completes.
+
 (* sentence 2a, about the certificate the verifier inspects — complete,
    including "not RSA" (RSA public key, or any of the nine RSA signature
    algorithms, PKCS#1 v1.5 and PSS): whenever verifyRawCerts accepts, the
@@ -343,5 +362,8 @@ Example monitor_rejects_bad_accepts :
   monitor_case [2; 2; 1; 1; 0; 0; -10; 5;  2; 1; 0; 0; -10; 5;   1; 18; 1;  0] = [] /\
   monitor_case [2; 1; 1; 1; 0; 0; -10; 5;   1; 18; 1;  0] = [] /\
   monitor_case [3; 1; 1; 1; 0; 0; -10; 5;   2; 18; 1; 18; 2;  1;  1; 18; 1;  0] <> [] /\
-  monitor_case [3; 1; 1; 1; 0; 0; -10; 5;   2; 18; 1; 18; 2;  1;  2; 18; 2; 18; 1;  0] = [].
+  monitor_case [3; 1; 1; 1; 0; 0; -10; 5;   2; 18; 1; 18; 2;  1;  2; 18; 2; 18; 1;  0] = [] /\
+  monitor_case [7; 0; 1; 1; 1; 0; 0; -10; 5;   2; 18; 1; 18; 2;  1;  2; 18; 2; 18; 1;  2] <> [] /\
+  monitor_case [3; 1; 1; 1; 0; 0; -10; 5;   0;  1;  1; 18; 1;  0] <> [] /\
+  monitor_case [3; 1; 1; 1; 0; 0; -10; 5;   2; 18; 1; 18; 9;  1;  3; 18; 1; 18; 1; 18; 2;  0] <> [].
 Proof. vm_compute. repeat split; discriminate. Qed.
